@@ -257,6 +257,10 @@ structure St where
   saslAuth : Bool := false
   saslSent : Bool := false   -- sasl_response_sent: a complete response went out for the current mechanism
   scramStep : Nat := 0       -- sasl_scram_state['step']: 0 uninitialized, 1 first-sent, 2 final-sent, 3 authenticated
+  -- sasl_username / sasl_password / sasl_ecdsa_key as read from the configuration by the last resetSasl
+  saslUser : Str := []
+  saslPass : Str := []
+  ecdsaKeyOk : Bool := false
   dec : Option Decoder := none
   nick : Str := []
   altNicks : List Str := []
@@ -333,6 +337,7 @@ def mechAvailable (cfg : Cfg) (m : Str) : Bool :=
 def resetSasl (cfg : Cfg) (s : St) : St :=
   let next := cfg.mechanisms.filter (mechAvailable cfg)
   { s with saslAuth := false, saslSent := false, scramStep := 0, dec := none, saslNext := next, saslCur := none,
+           saslUser := cfg.saslUser, saslPass := cfg.saslPass, ecdsaKeyOk := cfg.ecdsaKeyOk,
            wanted := if next.isEmpty then Gen.Conn.requestCapabilities else Gen.Conn.requestCapabilities ++ [sSasl] }
 
 /-- the messages Irc._queueConnectMessages / sendAuthenticationMessages put on the fast queue -/
@@ -541,13 +546,13 @@ def authRespond (cfg : Cfg) (n : Nat) (s : St) : R :=
   | none => raise "AttributeError" s
   | some m =>
     if m = sEcdsa then
-      if n = 0 then ok (sendSaslString (utf8 cfg.saslUser) s)
-      else if cfg.ecdsaKeyOk && n = 32 then ok { sendMsg .authOpaque s with saslSent := true }
+      if n = 0 then ok (sendSaslString (utf8 s.saslUser) s)
+      else if s.ecdsaKeyOk && n = 32 then ok { sendMsg .authOpaque s with saslSent := true }
       else ok (sendMsg .authAbort s)
     else if m = sExternal then ok (sendSaslString [] s)
     else if sScramPfx.isPrefixOf m then scramRespond cfg m s
     else if m = sPlain then
-      ok (sendSaslString (utf8 cfg.saslUser ++ [0] ++ utf8 cfg.saslUser ++ [0] ++ utf8 cfg.saslPass) s)
+      ok (sendSaslString (utf8 s.saslUser ++ [0] ++ utf8 s.saslUser ++ [0] ++ utf8 s.saslPass) s)
     else ok s
 
 /-- `self.authenticate_decoder`, created on demand -/
